@@ -58,12 +58,25 @@ def main():
         print("unknown check", a.what)
         sys.exit(2)
     t0 = time.time()
+    # one consistent snapshot of the specification for the whole run (a check runs TLC many times)
+    import shutil, tempfile
+    import tlc
+    snap = None
     try:
+        os.makedirs(tlc.WORK, exist_ok=True)
+        snap = tempfile.mkdtemp(prefix="spec_", dir=tlc.WORK)
+        for fn in os.listdir(tlc.SPEC):
+            if fn.endswith(".tla"):
+                shutil.copy(os.path.join(tlc.SPEC, fn), os.path.join(snap, fn))
+        tlc.SPEC = snap
         res = registry.CHECKS[a.what](a.what, a.tier, a.seed, a.replay, a.keep)
     except Exception as e:  # machinery failure: never a VIOLATION
         traceback.print_exc()
         print(f"MACHINERY-ERROR property={a.what} {type(e).__name__}: {str(e)[:500]}")
         sys.exit(2)
+    finally:
+        if snap:
+            shutil.rmtree(snap, ignore_errors=True)
     wall = time.time() - t0
     for line in res.get("known_lines", []):
         print(line)
